@@ -7,6 +7,7 @@ package fuzz
 
 import (
 	"bytes"
+	"os"
 	"strings"
 	"testing"
 
@@ -125,3 +126,60 @@ func FuzzC18Parsers(f *testing.F) {
 	f.Add("pkg (1.0) unstable; urgency=low\n\n  * x\n\n -- A <a@b>  Mon, 02 Jan 2006 15:04:05 -0700\n")
 	f.Fuzz(func(t *testing.T, s string) { runCase(t, "C18", "input", []byte(s)) })
 }
+
+// steer lets the coverage-guided fuzzer drive a property's structured
+// generators: the fuzz input is not the case, it is the sequence of random
+// choices the generator makes (core.RunSteered). The oracle is again the
+// property's own monitor.
+func steer(f *testing.F, prop string) {
+	r := core.NewRand(7, "steerseed", prop)
+	for i := 0; i < 64; i++ {
+		f.Add(r.Bytes(r.Range(4, 600)))
+	}
+	p := core.Lookup(prop)
+	f.Fuzz(func(t *testing.T, data []byte) {
+		if len(data) > 8192 {
+			return
+		}
+		ct := core.NewT(prop, "thorough", 1)
+		ct.Replay = true
+		ct.WorkDir = steerWorkDir(t)
+		core.RunSteered(p, ct, data)
+		if len(ct.Findings) > 0 {
+			t.Fatalf("VIOLATION %s/%s: %s", prop, ct.Findings[0].Kind, ct.Findings[0].Msg)
+		}
+	})
+}
+
+var steerDir string
+
+// steerWorkDir: one scratch directory per fuzz worker process inside the run's work directory (which the
+// driver removes); a per-call temporary directory when run by hand.
+func steerWorkDir(t *testing.T) string {
+	if steerDir != "" {
+		return steerDir
+	}
+	if w := os.Getenv("VERIF_WORK_RUN"); w != "" {
+		if d, err := os.MkdirTemp(w, "steer"); err == nil {
+			steerDir = d
+			return d
+		}
+	}
+	return t.TempDir()
+}
+
+func FuzzSteerC01(f *testing.F) { steer(f, "C01") }
+func FuzzSteerC02(f *testing.F) { steer(f, "C02") }
+func FuzzSteerC03(f *testing.F) { steer(f, "C03") }
+func FuzzSteerC04(f *testing.F) { steer(f, "C04") }
+func FuzzSteerC05(f *testing.F) { steer(f, "C05") }
+func FuzzSteerC06(f *testing.F) { steer(f, "C06") }
+func FuzzSteerC07(f *testing.F) { steer(f, "C07") }
+func FuzzSteerC08(f *testing.F) { steer(f, "C08") }
+func FuzzSteerC09(f *testing.F) { steer(f, "C09") }
+func FuzzSteerC10(f *testing.F) { steer(f, "C10") }
+func FuzzSteerC12(f *testing.F) { steer(f, "C12") }
+func FuzzSteerC13(f *testing.F) { steer(f, "C13") }
+func FuzzSteerC15(f *testing.F) { steer(f, "C15") }
+func FuzzSteerC17(f *testing.F) { steer(f, "C17") }
+func FuzzSteerC19(f *testing.F) { steer(f, "C19") }
